@@ -307,6 +307,45 @@ unsigned thread_id;
 static const struct task *next_task;
 
 
+#ifdef KJN_LBZIP2_VERIF
+/* Verification hook H3: scheduler trace.  If LBZIP2_VERIF_TRACE=<file> is
+   set, one line is appended at every point where a thread is about to
+   release the scheduler mutex or crosses a task boundary while holding it.
+   Record kinds: S <task> (task about to run), R (task returned), U (unlock),
+   W (worker about to wait), X (worker exits).  The per-process dump also
+   aborts if a queue holds more items than its capacity. */
+void compress_verif_dump(FILE *fp);
+void expand_verif_dump(FILE *fp);
+static FILE *verif_trace_fp;
+static int verif_trace_state = -1;
+static __thread int verif_tid = -1;
+static int verif_next_tid;
+static void
+verif_trace(const char *kind, const char *name)
+{
+  if (verif_trace_state < 0) {
+    const char *e = getenv("LBZIP2_VERIF_TRACE");
+    verif_trace_fp = e ? fopen(e, "a") : NULL;
+    verif_trace_state = verif_trace_fp != NULL;
+  }
+  if (verif_tid < 0)
+    verif_tid = verif_next_tid++;
+  if (process == &compression)
+    compress_verif_dump(verif_trace_state ? verif_trace_fp : NULL);
+  else if (process == &expansion)
+    expand_verif_dump(verif_trace_state ? verif_trace_fp : NULL);
+  if (!verif_trace_state)
+    return;
+  fprintf(verif_trace_fp, " k=%s%s%s t=%d eof=%d wu=%u os=%u tos=%u nw=%u\n",
+          kind, name ? ":" : "", name ? name : "", verif_tid, (int)eof,
+          work_units, out_slots, total_out_slots, num_worker);
+  fflush(verif_trace_fp);
+}
+#define VERIF_TRACE(k,n) verif_trace((k),(n))
+#else
+#define VERIF_TRACE(k,n) ((void)0)
+#endif
+
 static void
 source_thread_proc(void)
 {
@@ -496,7 +535,9 @@ worker_thread_proc(void)
   for (;;) {
     while (next_task != NULL) {
       Trace(("worker[%2u]: scheduling task '%s'...", id, next_task->name));
+      VERIF_TRACE("S", next_task->name);
       next_task->run();
+      VERIF_TRACE("R", NULL);
       select_task();
     }
 
@@ -504,9 +545,11 @@ worker_thread_proc(void)
       break;
 
     Trace(("worker[%2u]: stalled", id));
+    VERIF_TRACE("W", NULL);
     xwait(&sched_cond, &sched_mutex);
   }
 
+  VERIF_TRACE("X", NULL);
   xbroadcast(&sched_cond);
   xunlock(&sched_mutex);
 
@@ -529,6 +572,7 @@ sched_lock(void)
 void
 sched_unlock(void)
 {
+  VERIF_TRACE("U", NULL);
   select_task();
 
   if (next_task != NULL || process->finished())
